@@ -1362,6 +1362,7 @@ package spec
 //@   ensures  [C18] cache-dom-monotone @@ forall u string :: u != normBase(".root") && old(cacheDom[u]) ==> cacheDom[u]
 
 //@ func ExpandSchema
+//@   call ExpandSchemaWithBasePath 0 requires [C10] root-reachable-through-the-cache @@ arg_opts != nil && cacheDom[arg_opts.RelativeBase] && (root != nil ==> cacheDoc[arg_opts.RelativeBase] == root)
 //@   strings  uninterpreted
 //@   property C04, C08, C10
 //@   assumes  [C04] pseudo-root-wellformed @@ canonBase(normBase(".root"))
@@ -1369,6 +1370,7 @@ package spec
 //@   ensures  [C08] no-spurious-error @@ result != nil ==> failures > old(failures)
 
 //@ func ExpandResponseWithRoot
+//@   call expandParameterOrResponse 0 requires [C10] core-resolves-against-the-callers-root @@ arg_resolver.root == root && cacheDom[arg_basePath] && (root != nil ==> cacheDoc[arg_basePath] == root)
 //@   strings  uninterpreted
 //@   property C04, C08, C10
 //@   assumes  [C04] pseudo-root-wellformed @@ canonBase(normBase(".root"))
@@ -1376,6 +1378,7 @@ package spec
 //@   ensures  [C08] no-spurious-error @@ result != nil ==> failures > old(failures)
 
 //@ func ExpandParameterWithRoot
+//@   call expandParameterOrResponse 0 requires [C10] core-resolves-against-the-callers-root @@ arg_resolver.root == root && cacheDom[arg_basePath] && (root != nil ==> cacheDoc[arg_basePath] == root)
 //@   strings  uninterpreted
 //@   property C04, C08, C10
 //@   assumes  [C04] pseudo-root-wellformed @@ canonBase(normBase(".root"))
